@@ -316,7 +316,8 @@ func (V *Verifier) extraBudgetFields(spec *propSpec, res *checkResult) {
 					}
 					// whole-struct stores of parser / Stats values
 					ts := in.Val.Type().String()
-					if strings.HasSuffix(ts, "grammar.parser") || strings.HasSuffix(ts, "grammar.Stats") {
+					_, isPtr := in.Val.Type().Underlying().(*types.Pointer)
+					if !isPtr && (strings.HasSuffix(ts, "grammar.parser") || strings.HasSuffix(ts, "grammar.Stats")) {
 						_, fresh := rootOf(in.Addr).(*ssa.Alloc)
 						n++
 						res.extraObls = append(res.extraObls, decided(fmt.Sprintf("%s#frame:budget-struct-store@%d", k, n), "frame", fresh && (k == "grammar.newParser"),
